@@ -484,12 +484,6 @@ def specProps (sp : TSpec) : List TProp :=
         e.commands.foldl (fun acc sv => sv.methods.foldl (fun acc m => acc ++ m.req ++ m.resp) acc)
           (e.events.foldl (fun acc m => acc ++ m.2) (acc ++ e.keys ++ e.data))) [])
 
-/-- an array or map of `any`: refused by the schema reader (open finding `api:err:collection-of-any`) -/
-def isAnyCollection : TType → Bool
-  | .arr (.scalar "any") => true
-  | .map (.scalar "any") => true
-  | _ => false
-
 def methodRoots (nodes : List NamedNode) (m : TMethod) : MethodRoots :=
   { request := m.req.map fun p => (propOf nodes "service." (m.name ++ "Request") p).field,
     response := if m.hasResp then some (m.resp.map fun p => (propOf nodes "service." (m.name ++ "Response") p).field) else none }
@@ -502,9 +496,8 @@ def chainLine (sp : TSpec) : S :=
   -- "accepted by the compiler, refused by the client" cannot happen (`C16_list_defaults_chain`)
   let verdicts := (specProps sp).map (defaultsVerdict sp.schemas)
   if verdicts.any (·.isNone) then "compile-err" else
-  -- open findings at the image -> API stage: a collection of `any`; an entity without events
-  -- (empty event oneof, C17's finding)
-  if (specProps sp).any (fun p => isAnyCollection p.2.2) || sp.entities.any (·.events.isEmpty) then "fail api" else
+  -- open finding at the image -> API stage: an entity without events (empty event oneof, C17's finding)
+  if sp.entities.any (·.events.isEmpty) then "fail api" else
   if verdicts.any (· == some false) then "fail client" else
   let nodes := allNodes sp
   let g := graphOf nodes
@@ -623,20 +616,21 @@ def graphOp (toks : List S) : S :=
           let base : Field := if how == "s" then .scalar
             else if kindOf t == "u" then .oneof (idx t) else if kindOf t == "e" then .enum (idx t) else .object (idx t)
           let f := if how == "a" then Field.array base else if how == "m" then Field.map base else base
-          { name := strOf p, field := f, tag := if how == "s" then 4 else 0 } }
+          -- `f`: a flattened object field (flatten exists on object fields only)
+          { name := strOf p, field := f, tag := if how == "s" then 4 else 0, flat := how == "f" && kindOf t == "o" } }
     -- the schema set is refused when any reference is unresolved (`assertRefsLink`)
     let linked := match linkAll g with
       | some (.ok _) => true
       | _ => false
     if !linked then "err" else
-    let l := match walk g (idx root) with
-      | some (.ok vs) =>
-        let ps := (vs.filter (fun v => tagSearch v.tag)).map (fun v => ".".intercalate (names v.path))
-        some (csv ps "-")
+    -- the list method `L`: request { query: QueryRequest (another package) }, response { items: array of root }
+    let l := match buildListRequest g (some [{ name := b!"items", field := .array (.object (idx root)) }]) with
+      | some (.ok lr) => some (csv (lr.search.map fun p => ".".intercalate (names p)) "-")
       | _ => none
-    let k := match collect g [.array (.object (idx root)), .object unlinked] with
-      | some is => some (csv (sortStrings (is.filterMap fun i => (nodes[i]?).map (·.1))) "-")
-      | none => none
+    let k := match clientSchemas g { entities := [], services := [[{ request := [.object unlinked],
+          response := some [.array (.object (idx root))] }]] } with
+      | some (.ok is) => some (csv (sortStrings (is.filterMap fun i => (nodes[i]?).map (·.1))) "-")
+      | _ => none
     match l, k with
     | some l, some k => "ok L:" ++ l ++ " K:" ++ k
     | _, _ => "err"
